@@ -84,9 +84,14 @@ Section Cell.
     match l with [] => Some (z2T 1) | a :: _ => contains_value_from a l p (z2T 1) end.
 
   (* a5cell_contains_point(cell, lon, lat) *)
+  (* a point farther than 60 degrees (haversine > 1/4) from the centre of the cell's face is outside, -1 (fixed
+     defect D15: beyond the neighbouring faces the projection is a meaningless extrapolation) *)
   Definition cell_contains_point (c : cell) (lon lat : T) : option T :=
     let '(theta, phi) := from_lon_lat OP lon lat in
     proj <-? dodec_forward OP theta phi (origin_id c) ;;
+    let '(t2, p2) := axis_of OP (nth (Z.to_nat (origin_id c)) origin_axis ((0, 0), (0, 0))%Z) in
+    far <-? o_ltb OP (lit OP 1 4) (haversine OP theta phi t2 p2) ;;
+    if far then Some (o_neg OP (z2T 1)) else
     pent <-? get_pentagon c ;;
     contains_value pent proj.
 
